@@ -111,6 +111,15 @@ fn mark_file_indeterminate(identity: FileIdentity, file: &Arc<File>) {
         .or_insert_with(|| Arc::clone(file));
 }
 
+/// Simulated process restart: forget which files were poisoned in "this process".
+#[cfg(all(feoxdb_verif, target_os = "linux"))]
+pub fn verif_process_restart() {
+    indeterminate_files()
+        .lock()
+        .unwrap_or_else(|poisoned| poisoned.into_inner())
+        .clear();
+}
+
 #[cfg(target_os = "linux")]
 fn file_identity(file: &File) -> Result<FileIdentity> {
     use std::os::unix::fs::MetadataExt;
@@ -250,6 +259,8 @@ pub struct DiskIO {
     #[cfg(unix)]
     fd: RawFd,
     _use_direct_io: bool,
+    #[cfg(feoxdb_verif)]
+    sim: Option<Arc<dyn crate::verif::SimDevice>>,
 }
 
 impl DiskIO {
@@ -264,6 +275,22 @@ impl DiskIO {
                 return Err(FeoxError::IndeterminateWrite(io::Error::other(
                     "io_uring write outcome for this file is indeterminate until process restart",
                 )));
+            }
+
+            #[cfg(feoxdb_verif)]
+            if let Some(sim) = crate::verif::device_for(file.as_ref()) {
+                return Ok(Self {
+                    ring: None,
+                    next_user_data: 0,
+                    write_indeterminate: AtomicBool::new(false),
+                    journal_generation: AtomicU64::new(0),
+                    journal_slot: AtomicUsize::new(ALLOCATION_JOURNAL_SLOTS - 1),
+                    file_identity,
+                    _file: file,
+                    fd,
+                    _use_direct_io: false,
+                    sim: Some(sim),
+                });
             }
 
             // Create io_uring instance
@@ -288,6 +315,8 @@ impl DiskIO {
                         _file: file.clone(),
                         fd,
                         _use_direct_io: use_direct_io,
+                        #[cfg(feoxdb_verif)]
+                        sim: None,
                     });
                 }
             }
@@ -302,6 +331,8 @@ impl DiskIO {
                 _file: file,
                 fd,
                 _use_direct_io: use_direct_io,
+                #[cfg(feoxdb_verif)]
+                sim: None,
             })
         }
 
@@ -315,6 +346,8 @@ impl DiskIO {
                 _file: file,
                 fd,
                 _use_direct_io: false, // O_DIRECT not supported on this platform
+                #[cfg(feoxdb_verif)]
+                sim: None,
             })
         }
     }
@@ -327,12 +360,19 @@ impl DiskIO {
             journal_slot: AtomicUsize::new(ALLOCATION_JOURNAL_SLOTS - 1),
             _file: Arc::new(file),
             _use_direct_io: false,
+            #[cfg(feoxdb_verif)]
+            sim: None,
         })
     }
 
     pub fn read_sectors_sync(&self, sector: u64, count: u64) -> Result<Vec<u8>> {
         let size = (count * FEOX_BLOCK_SIZE as u64) as usize;
         let offset = sector * FEOX_BLOCK_SIZE as u64;
+
+        #[cfg(feoxdb_verif)]
+        if let Some(sim) = &self.sim {
+            return sim.read(offset, size).map_err(FeoxError::IoError);
+        }
 
         #[cfg(unix)]
         {
@@ -441,6 +481,11 @@ impl DiskIO {
         self.ensure_writable()?;
         let offset = sector * FEOX_BLOCK_SIZE as u64;
 
+        #[cfg(feoxdb_verif)]
+        if let Some(sim) = &self.sim {
+            return sim.write(offset, data).map_err(FeoxError::IoError);
+        }
+
         #[cfg(unix)]
         {
             let written = if self._use_direct_io {
@@ -525,6 +570,10 @@ impl DiskIO {
 
     pub fn flush(&self) -> Result<()> {
         self.ensure_writable()?;
+        #[cfg(feoxdb_verif)]
+        if let Some(sim) = &self.sim {
+            return sim.fsync().map_err(FeoxError::IoError);
+        }
         #[cfg(unix)]
         unsafe {
             if libc::fsync(self.fd) == -1 {
